@@ -137,16 +137,34 @@ for integ, opts in cconfigs:
       if kind != "regular" and integ not in ("mercurius", "trace"):
           continue
       cidx += 1
-      fac = [(ro, ca) for ro in ROLES for ca in CALLS]
-      for role, call in (fac if thorough else [fac[0], fac[(cidx + seed) % 5 + 1]]):
+      # user-settable recalculation flags of the integrator in use (extracted from the ctypes class, so a new flag is picked up):
+      # setting one between steps WITHOUT synchronising first is legal (the code synchronises itself and warns) and must not
+      # break covariance; only meaningful when the integrator can be unsynchronised (safe_mode = 0)
+      ricls = {"whfast": rebound.integrators.whfast.IntegratorWHFast, "saba": rebound.integrators.saba.IntegratorSABA,
+               "mercurius": rebound.integrators.mercurius.IntegratorMercurius, "trace": rebound.integrators.trace.IntegratorTRACE}[integ]
+      flags = [f[0] for f in ricls._fields_ if f[0].startswith("recalculate_")]
+      if integ == "saba":
+          flags = ["whfast:recalculate_coordinates_this_timestep"]
+      fac = [(ro, ca, "none") for ro in ROLES for ca in CALLS]
+      if opts.get("safe_mode", 1) == 0 or integ in ("mercurius",):
+          fac += [("plain", "steps", fl) for fl in flags] + [("tp0", "steps", fl) for fl in flags]
+      sel = fac if thorough else [fac[0], fac[(cidx + seed) % (len(fac) - 1) + 1]] + [x for x in fac if x[2] != "none" and x[0] == "plain"]
+      for role, call, flag in sel:
         seedk = rng.next()
         d = (10.0, -7.0, 3.0); u = (0.3, -0.2, 0.1)
         try:
-            a = build(kind, integ, opts, (0, 0, 0), (0, 0, 0), SplitMix(seedk), role)
-            b = build(kind, integ, opts, d, u, SplitMix(seedk), role)
+            o2 = dict(opts)
+            if flag != "none":
+                o2["safe_mode"] = 0     # flags are only interesting while the integrator is unsynchronised
+            a = build(kind, integ, o2, (0, 0, 0), (0, 0, 0), SplitMix(seedk), role)
+            b = build(kind, integ, o2, d, u, SplitMix(seedk), role)
             nst = 70 if kind == "approach" else 40
             worst = 0.0; where = None
             for st in range(nst):
+                if flag != "none" and st % 7 == 3:
+                    for sim_ in (a, b):
+                        tgt = sim_.ri_whfast if flag.startswith("whfast:") else {"whfast": sim_.ri_whfast, "saba": sim_.ri_saba, "mercurius": sim_.ri_mercurius, "trace": sim_.ri_trace}[integ]
+                        setattr(tgt, flag.split(":")[-1], 1)
                 if call == "steps":
                     a.steps(1); b.steps(1)
                 else:
@@ -161,9 +179,9 @@ for integ, opts in cconfigs:
                             e = abs(xb - (xa + d[c] + u[c] * t))
                             if e > worst:
                                 worst = e; where = (st, i, c)
-            cov.append(dict(integ=integ, opts=opts, kind=kind, role=role, call=call, worst=worst, where=where, t=a.t, steps_done=[a.steps_done, b.steps_done]))
+            cov.append(dict(integ=integ, opts=opts, kind=kind, role=role, call=call, flag=flag, worst=worst, where=where, t=a.t, steps_done=[a.steps_done, b.steps_done]))
         except Exception as e:
-            cov.append(dict(integ=integ, opts=opts, kind=kind, role=role, call=call, error=repr(e)[:200]))
+            cov.append(dict(integ=integ, opts=opts, kind=kind, role=role, call=call, flag=flag, error=repr(e)[:200]))
 # first-step rejection scan: a pair starts just outside the critical radius and closes in during the very first step
 # (the stored centre of mass is still the initial zero then); plus user frame shifts between steps
 def approach_pair(sep, vclose, d, u):
